@@ -130,7 +130,7 @@ def handle (op : String) (args : List String) : String :=
     | some s =>
       match parseTL2File s with
       | .ok (.ok f) =>
-        s!"ok guard={!(f.any Comb.hasDep) && !(f.any Comb.hasSingletonUnion)} wf={f.all combWF}"
+        s!"ok guard={!(f.any Comb.hasDep)} wf={f.all combWF}"
       | .ok (.error _) => "rej"
       | .panic => "panic"
       | .nofuel => "nofuel"
